@@ -154,9 +154,11 @@ func (x *ctx) call(what string, f func() error) {
 }
 
 func (x *ctx) examine(what string, err error) {
-	var pe jschema.ParsingError
-	var ve jschema.ValidationError
-	isLib := errors.As(err, &pe) || errors.As(err, &ve)
+	// the error value itself must expose code, message and position: a library error wrapped into a
+	// fmt error exposes none of them to the caller (and kit.ConvertError sees position 0, code 0)
+	pe, _ := err.(jschema.ParsingError)
+	ve, _ := err.(jschema.ValidationError)
+	isLib := pe != nil || ve != nil
 	if !isLib {
 		var bare liberrors.Errorf
 		if errors.As(err, &bare) && bare.Code() == liberrors.ErrInfinityRecursionDetected && run.MatchKnown("C07-recursion-error-has-no-position") {
@@ -165,6 +167,9 @@ func (x *ctx) examine(what string, err error) {
 		txt, _ := lib.ErrorText(err)
 		x.bad("%s returned %T which is not a library error (no code/message/position): %s", what, err, txt)
 		return
+	}
+	if pe != nil && pe.Message() == "" || ve != nil && ve.Message() == "" {
+		x.bad("%s returned %T with an empty Message() (the text of Error() is %q)", what, err, func() string { s, _ := lib.ErrorText(err); return s }())
 	}
 	if txt, _ := lib.ErrorText(err); strings.Contains(txt, "runtime error:") {
 		// a Go runtime panic (index out of range, nil dereference ...) recovered somewhere inside the
@@ -468,13 +473,27 @@ func baseCase(t *rapid.T) Case {
 		run.Label("family:long-lines")
 		return c
 	}
+	if rapid.IntRange(0, 5).Draw(t, "emptyDoc") == 0 {
+		c.Docs = append(c.Docs, rapid.SampledFrom([]string{"", " ", "\n", " \r\n\t"}).Draw(t, "blankDoc"))
+	}
+	if rapid.IntRange(0, 11).Draw(t, "shortcutWithOr") == 0 {
+		// a type shortcut next to an "or" rule of kind names
+		c.Schema = rapid.SampledFrom([]string{"@a // {or: [\"string\", \"integer\"]}", "{\n  \"k\": @a // {or: [\"string\", \"null\"]}\n}", "  @a | @b // {or: [\"integer\", \"boolean\"]}"}).Draw(t, "shortcutOr")
+		c.Types = [][2]string{{"@a", "1"}, {"@b", "\"s\""}}
+		if rapid.Bool().Draw(t, "dropTypes") {
+			c.Types = nil
+		}
+		run.Label("family:type-shortcut-with-or-of-kind-names")
+	}
 	// enum rule + regex type in a fraction of the cases
 	if rapid.IntRange(0, 2).Draw(t, "withEnum") == 0 {
 		c.Enums = append(c.Enums, [2]string{"@e", rapid.SampledFrom([]string{"[1, 2]", "[\n 1, // one\n \"a\" /* b */\n]", "[]", "[true, null, 1.5]", "[1, 2] // tail comment", "[] /* c */", "[1] /* open", "[]/*", " [\"x\"]\n"}).Draw(t, "enumText")})
 		c.Schema = "{\n  \"en\": 1, // {enum: @e}\n  \"rest\": " + strings.ReplaceAll(c.Schema, "\n", "\n  ") + "\n}"
 	}
 	if rapid.IntRange(0, 3).Draw(t, "withRegex") == 0 {
-		c.Regexes = append(c.Regexes, [2]string{"@rx", rapid.SampledFrom([]string{"/^a+$/", "/[0-9]{2,3}/", "/a\\/b/", "/x|y/ tail"}).Draw(t, "regexText")})
+		c.Regexes = append(c.Regexes, [2]string{"@rx", rapid.SampledFrom([]string{"/^a+$/", "/[0-9]{2,3}/", "/a\\/b/", "/x|y/ tail",
+			// classes without a printable ASCII character, zero-width assertions, an empty class
+			"/[^\\x00-\\x7f]/", "/[^ -~\\s]+/", "/\\Bfoo/", "/[[:^ascii:]]/", "/[^\\x00-\\x{10FFFF}]/", "/\\P{Any}/", "/a\\b/"}).Draw(t, "regexText")})
 	}
 	return c
 }
@@ -564,7 +583,23 @@ func TestLegalExtremes(t *testing.T) {
 	rapid.Check(t, func(t *rapid.T) {
 		var c Case
 		rep := strings.Repeat
-		switch rapid.IntRange(0, 7).Draw(t, "dimension") {
+		switch rapid.IntRange(0, 8).Draw(t, "dimension") {
+		case 8: // a layered graph of types: every type of a layer lists both types of the next one
+			n := rapid.IntRange(8, 36).Draw(t, "layers")
+			c.Schema = `1 // {or: ["@l0", "@m0"]}`
+			mixed := rapid.IntRange(0, 3).Draw(t, "mixedLayers") == 0 // some layers written as shortcut lists
+			for i := 0; i < n; i++ {
+				next := fmt.Sprintf(`1 // {or: ["@l%d", "@m%d"]}`, i+1, i+1)
+				if i == n-1 {
+					next = "1"
+				}
+				if mixed && rapid.IntRange(0, 3).Draw(t, "shortcutLayer") == 0 && i < n-1 {
+					next = fmt.Sprintf("@l%d | @m%d", i+1, i+1)
+				}
+				c.Types = append(c.Types, [2]string{fmt.Sprintf("@l%d", i), next}, [2]string{fmt.Sprintf("@m%d", i), next})
+			}
+			c.Docs = []string{"1", `"x"`}
+			run.Label("extreme:layered-alternatives")
 		case 0: // nested arrays
 			d := rapid.IntRange(8, 150).Draw(t, "depth")
 			c.Schema = rep("[", d) + "1" + rep("]", d)
